@@ -157,6 +157,8 @@ def _gen_handler(mdl, i, j, event):
             out.append(f'        p{k} = vt::from_long<{formal["ctype"]}>(a[{k}] + {1000 + k});\n')
     if rtype != 'void':
         out.append(f'        return vt::from_long<{rtype}>(vt::reply_of(who, {_cstr(event["name"])}));\n')
+    else:
+        out.append(f'        vt::void_event(who, {_cstr(event["name"])});\n')
     out.append('    }\n};\n')
     return ''.join(out)
 
@@ -264,6 +266,10 @@ _DRIVER_PROLOGUE = r'''// Trace driver - generated by harness/cxx/gen_cxx.py.  R
 #include <memory>
 #include <typeinfo>
 #include <utility>
+#ifdef VT_THREADED
+#include <chrono>
+#include <thread>
+#endif
 
 using ShellT = @SHELL_T@;
 using CompT = @COMP_T@;
@@ -412,6 +418,7 @@ void op_world(const std::vector<std::string>& t)
 
     W.reset(); // destroy the previous world
     vt::g_replies.clear();
+    vt::g_arbiter = vt::Arbiter();
     vt::g_skipenv.clear();
     vt::g_skipcomp = skipcomp;
     W.reset(new World);
@@ -492,6 +499,24 @@ void op_reply(const std::vector<std::string>& t)
     vt::emit("reply ok");
 }
 
+void op_arbiter(const std::vector<std::string>& t)
+{
+    long grant = 0, deny = 0;
+    if (t.size() != 6)
+        return vt::emit("err usage: arbiter <port> <claimEv> <releaseEv> <grantValue> <denyValue>");
+    const char* in_events = in_events_of_provides_port(t[1]);
+    if (!in_events) return vt::emit("err unknown port " + t[1]);
+    for (int i = 2; i <= 3; ++i)
+        if (std::string(in_events).find("," + t[i] + ",") == std::string::npos)
+            return vt::emit("err unknown event " + t[1] + "." + t[i]);
+    if (!parse_long(t[4], grant)) return vt::emit("err bad number " + t[4]);
+    if (!parse_long(t[5], deny)) return vt::emit("err bad number " + t[5]);
+    vt::Arbiter a;
+    a.on = true; a.port = t[1]; a.claim = t[2]; a.release = t[3]; a.grant = grant; a.deny = deny;
+    vt::g_arbiter = a;
+    vt::emit("arbiter ok");
+}
+
 void execute(const std::string& line)
 {
     const std::vector<std::string> t = split(line);
@@ -499,7 +524,7 @@ void execute(const std::string& line)
     if (op == "world") return op_world(t);
     if (op == "reply") return op_reply(t);
     const bool known = op == "client" || op == "bind" || op == "final" || op == "call" || op == "raise"
-                       || op == "pump" || op == "ids";
+                       || op == "pump" || op == "ids" || op == "arbiter" || op == "conc";
     if (!known) return vt::emit("err unknown op " + op);
     if (!W || !W->shell) return vt::emit("noworld");
     if (op == "client") return op_client(t);
@@ -509,6 +534,8 @@ void execute(const std::string& line)
     if (op == "raise") return op_invoke(false, t);
     if (op == "pump") return op_pump();
     if (op == "ids") return op_ids(t);
+    if (op == "arbiter") return op_arbiter(t);
+    if (op == "conc") return op_conc(t);
 }
 } // namespace
 
@@ -670,6 +697,180 @@ def _gen_port_ops(mdl):
     return ''.join(out)
 
 
+_CONC_BODY = r"""
+struct ConcRng // deterministic per (seed, thread index)
+{
+    unsigned long long s;
+    ConcRng(long seed, long index)
+        : s(static_cast<unsigned long long>(seed) * 0x9E3779B97F4A7C15ULL
+            + static_cast<unsigned long long>(index + 1) * 0xBF58476D1CE4E5B9ULL) {}
+    unsigned next(unsigned n)
+    {
+        s = s * 6364136223846793005ULL + 1442695040888963407ULL;
+        return static_cast<unsigned>((s >> 33) % n);
+    }
+    void pause() // 0..49 microseconds; below 5: just yield
+    {
+        const unsigned us = next(50);
+        if (us < 5) std::this_thread::yield();
+        else std::this_thread::sleep_for(std::chrono::microseconds(us));
+    }
+};
+
+void op_conc(const std::vector<std::string>& t)
+{
+    using PortT = @ITF_T@;
+    const std::string port = @PORT@;
+    long cycles = 1, outs = 0, seed = 0;
+    std::string use;
+    std::vector<std::string> ids;
+    for (std::size_t i = 1; i < t.size(); ++i)
+    {
+        const auto eq = t[i].find('=');
+        const std::string key = t[i].substr(0, eq), value = eq == std::string::npos ? "" : t[i].substr(eq + 1);
+        bool ok = true;
+        if (key == "cycles") ok = parse_long(value, cycles);
+        else if (key == "outs") ok = parse_long(value, outs);
+        else if (key == "seed") ok = parse_long(value, seed);
+        else if (key == "use") use = value;
+        else if (key == "clients")
+        {
+            ids.assign(1, "");
+            for (char ch : value) { if (ch == ',') ids.emplace_back(); else ids.back() += ch; }
+        }
+        else ok = false;
+        if (!ok) return vt::emit("err bad conc argument " + t[i]);
+    }
+    if (ids.empty())
+        return vt::emit("err usage: conc cycles=<n> outs=<m> seed=<s> [use=<inEvent>] clients=<id1,id2,...>");
+    std::vector<PortT*> ports;
+    auto& clients = W->clients[port];
+    for (const auto& id : ids)
+    {
+        auto it = clients.find(id);
+        if (it == clients.end()) return vt::emit("err unknown client " + port + "@" + id);
+        ports.push_back(static_cast<PortT*>(it->second));
+    }
+    if (!use.empty() && std::string(in_events_of_provides_port(port)).find("," + use + ",") == std::string::npos)
+        return vt::emit("err unknown event " + port + "." + use);
+    CompT* c = static_cast<CompT*>(vt::g_comp);
+    dzn::pump* dispatcher = c->dzn_locator.try_get<dzn::pump>(); // the pump the shell dispatches on
+    if (!dispatcher) return vt::emit("err no dispatcher");
+    const long grant = vt::g_arbiter.on && vt::g_arbiter.port == port ? vt::g_arbiter.grant : @DEFAULT_GRANT@;
+
+    static const std::vector<long> zeros(MAX_FORMALS, 0);
+    std::atomic<long> granted{0}, denied{0};
+    std::vector<std::thread> threads;
+    for (std::size_t n = 0; n < ids.size(); ++n)
+    {
+        threads.emplace_back([&, n] {
+            const std::string me = "t " + ids[n];
+            ConcRng rng(seed, static_cast<long>(n) + 1);
+            try
+            {
+                for (long cycle = 0; cycle < cycles; ++cycle)
+                {
+                    CallRes claim;
+                    invoke_@I@(*ports[n], @CLAIM@, true, zeros.data(), claim);
+                    vt::emit(me + " claim ret=" + std::to_string(claim.ret));
+                    if (claim.ret != grant) { ++denied; std::this_thread::yield(); continue; }
+                    ++granted;
+                    if (!use.empty())
+                    {
+                        CallRes used;
+                        invoke_@I@(*ports[n], use, true, zeros.data(), used);
+                        vt::emit(me + " use");
+                    }
+                    rng.pause();
+                    vt::emit(me + " release-begin");
+                    CallRes release;
+                    invoke_@I@(*ports[n], @RELEASE@, true, zeros.data(), release);
+                    vt::emit(me + " release-end");
+                }
+            }
+            catch (...) { vt::emit(me + " exc " + describe_current_exception()); }
+        });
+    }
+
+    // meanwhile: the component raises out-events in dispatcher context
+    ConcRng rng(seed, 0);
+    for (long k = 0; k < outs; ++k)
+    {
+        rng.pause();
+        (*dispatcher)([k, c] {
+            const std::string me = "o " + std::to_string(k);
+            vt::emit(me + " begin");
+            try
+            {
+                CallRes raised;
+                (void)raised; (void)c;
+@RAISE@
+            }
+            catch (...) { vt::emit(me + " exc " + describe_current_exception()); }
+            vt::emit(me + " end");
+        });
+    }
+    for (auto& thread : threads) thread.join();
+    bool again = true;
+    for (int round = 0; again && round < 1000; ++round)
+    {
+        again = false;
+        const std::vector<dzn::pump*> pumps = vt::g_pumps;
+        for (dzn::pump* p : pumps)
+            if (!p->idle()) { again = true; p->run(); }
+    }
+    vt::emit("conc done claims=" + std::to_string(granted.load()) + " denied=" + std::to_string(denied.load()));
+}
+"""
+
+
+def _gen_conc(mdl):
+    """in_events_of_provides_port() and the `conc` op (concurrency experiment, -DVT_THREADED only)."""
+    out = ['// ",ev1,ev2,": the in-events of a provides port; nullptr when `port` is not a provides port\n'
+           'const char* in_events_of_provides_port(const std::string& port)\n{\n']
+    for port in mdl.ports:
+        if port['dir'] == 'provides':
+            itf = mdl.itfs[mdl.itf_index[tuple(port['itf'])]]
+            names = ''.join(e['name'] + ',' for e in itf['events'] if e['dir'] == 'in')
+            out.append(f'    if (port == {_cstr(port["name"])}) return {_cstr("," + names)};\n')
+    out.append('    (void)port;\n    return nullptr;\n}\n')
+
+    mc = mdl.spec.get('multiclient')
+    mc_port = None
+    if mc:
+        mc_port = next((p for p in mdl.ports if p['name'] == mc['port'] and mdl.exposed(p)), None)
+    out.append('\n#ifndef VT_THREADED\n'
+               'void op_conc(const std::vector<std::string>&) { vt::emit("err threaded build required"); }\n'
+               '#else\n')
+    if mc_port is None:
+        out.append('void op_conc(const std::vector<std::string>&) { vt::emit("err no multiclient port"); }\n')
+    else:
+        i = mdl.itf_index[tuple(mc_port['itf'])]
+        itf = mdl.itfs[i]
+        default_grant = 0
+        grant = mc.get('grant')
+        if grant:
+            for enum in mdl.enums:
+                if tuple(enum['fqn']) == tuple(grant[:-1]) and grant[-1] in enum['fields']:
+                    default_grant = enum['fields'].index(grant[-1])
+        first_out = next((j for j, e in enumerate(itf['events']) if e['dir'] == 'out'), None)
+        if first_out is None:
+            raise_code = '                // the interface has no out-event: nothing to raise'
+        else:
+            raise_code = f'                inv_{i}_{first_out}(c->{mc_port["name"]}, zeros.data(), raised);'
+        body = _CONC_BODY
+        body = body.replace('@ITF_T@', _cpp(mc_port['itf']))
+        body = body.replace('@PORT@', _cstr(mc_port['name']))
+        body = body.replace('@DEFAULT_GRANT@', str(default_grant))
+        body = body.replace('@I@', str(i))
+        body = body.replace('@CLAIM@', _cstr(mc['claim']))
+        body = body.replace('@RELEASE@', _cstr(mc['release']))
+        body = body.replace('@RAISE@', raise_code)
+        out.append(body)
+    out.append('#endif // VT_THREADED\n')
+    return ''.join(out)
+
+
 def _gen_static_asserts(mdl):
     predict = mdl.spec.get('predict') or {}
     out = []
@@ -706,7 +907,7 @@ def gen_driver(spec) -> str:
     if spec.get('multiclient'):
         text += f'\nconst {_cpp(spec["support_ns"])}::ILog g_log{{}};\n'
     text += f'\nconst std::size_t MAX_FORMALS = {mdl.max_formals};\n\n'
-    text += _gen_invokers(mdl) + '\n' + _gen_port_ops(mdl)
+    text += _gen_invokers(mdl) + '\n' + _gen_port_ops(mdl) + '\n' + _gen_conc(mdl)
     text += _DRIVER_EPILOGUE.replace('@CTOR_ARGS@', ctor_args)
     return text
 
